@@ -181,8 +181,55 @@ def run_history(case):
     return {"verdict": HELD, "cov": cov, "nt": "hist:%s:%d" % ("".join(map(str, sorted(set(picks)))), pos)}
 
 
+def run_memcheck(case):
+    """valgrind memcheck over the whole worker process (it sees inside the uninstrumented LLVM objects: handles used
+    after their module was consumed by the linker) on multi-module compilations."""
+    import os
+    import re
+    import subprocess
+    import tempfile
+    _, seed, i = case
+    rng = common.rng_for(seed, PROP, "memcheck", i)
+    if i % 2 == 0:
+        prog, _cov, prng = c01.make_program(seed + 1212, i, {"max_funcs": 4, "max_stmts": 6})
+        n_decl = len(prog.consts) + len(prog.structs) + len(prog.funcs)
+        if n_decl < 2:
+            return {"verdict": None, "cov": {"too_small": 1}}
+        mods, _info = gen_prog.split_modules(prog, rng, rng.randrange(2, min(4, n_decl) + 1))
+        files = [(fn, gen_prog.module_source(decls, imps)) for fn, decls, imps in mods]
+        rng.shuffle(files)
+    else:
+        k = rng.randrange(2, 4)
+        files = [("u%d.pn" % j, UNRELATED[rng.randrange(len(UNRELATED))] % j) for j in range(k)]
+        files.append(("x.pn", "import \"u0.pn\";\n\nfn main() -> i32\n{\n\tprint!(\"x\\n\");\n\treturn: 0\n}\n"))
+        rng.shuffle(files)
+    req = {"op": "alpha_compile", "files": [{"path": p, "src": s} for p, s in files], "ir": False, "module_ir": False}
+    fd, path = tempfile.mkstemp(prefix="pv-vg-", suffix=".json")
+    with os.fdopen(fd, "w") as f:
+        json.dump(req, f)
+    try:
+        p = subprocess.run(["valgrind", "--error-exitcode=9", "--quiet", "--num-callers=30", common.worker_path("rel"), "--one", path],
+                           stdout=subprocess.PIPE, stderr=subprocess.PIPE, text=True, timeout=600)
+    except subprocess.TimeoutExpired:
+        return {"verdict": INCONCLUSIVE, "detail": "valgrind timed out"}
+    except FileNotFoundError:
+        raise common.HarnessError("valgrind not found")
+    finally:
+        os.unlink(path)
+    cov = {"memcheck_runs": 1, "memcheck_modules": len(files)}
+    if p.returncode == 9 or "== Invalid" in p.stderr or "uninitialised" in p.stderr:
+        head = re.search(r"==\d+== ((?:Invalid|Conditional|Use of|Mismatched|Source and)[^\n]*)", p.stderr)
+        frame = re.search(r"(?:at|by) 0x[0-9A-F]+: ((?:penne|pv_worker)[^\n(]*)", p.stderr)
+        return {"verdict": VIOLATED, "sig": "memcheck: %s in %s" % (re.sub(r"\d+", "N", head.group(1)) if head else "error",
+                                                                    frame.group(1).strip()[:80] if frame else "?"),
+                "detail": p.stderr[-2500:], "replay": {"files": files}, "cov": cov}
+    if p.returncode not in (0,):
+        return {"verdict": None, "cov": {"memcheck_worker_exit_%d" % p.returncode: 1}}     # crashes are judged natively
+    return {"verdict": HELD, "cov": cov, "nt": "memcheck:%d:%d" % (i % 2, len(files))}
+
+
 def run_case(case):
-    return {"split": run_split, "vis": run_visibility, "hist": run_history}[case[0]](case)
+    return {"split": run_split, "vis": run_visibility, "hist": run_history, "memcheck": run_memcheck}[case[0]](case)
 
 
 def replay_file(path):
@@ -212,6 +259,8 @@ def main(tier, seed, replay=None):
     cases = [("split", seed, i) for i in range(400 if q else 8000)]
     cases += [("vis", seed, i) for i in range(40 if q else 600)]
     cases += [("hist", seed, i) for i in range(250 if q else 6000)]
+    cases += [("memcheck", seed, i) for i in range(16 if q else 320)]
+    common.ensure_worker("rel")
     for r in common.run_sharded(run_case, cases):
         if r.get("verdict") is None and "harness_error" not in r:
             run.merge_counters(r.get("cov"))
